@@ -17,11 +17,17 @@ Judge(rec) ==
   IF died THEN {"total"}
   ELSE IF ~o.parsed THEN {}
   ELSE (IF o.class # "ok" THEN {"total"} ELSE
+        \* the tree that was desugared is the tree of THIS source (the specification's own lexer and parser)
+        (LET lx == Lex(rec.ops, rec.src)
+             pr == IF lx.ok THEN Parse(rec.ops, lx.toks) ELSE [ok |-> FALSE, why |-> "lex"] IN
+         IF pr.ok /\ StripPos(o.before) # StripPos(pr.node) THEN {"before"} ELSE {}) \cup
         (IF ~IsCore(o.after) THEN {"core"} ELSE {})
         \cup (IF o.after # Desugar(o.before) THEN {"after"} ELSE {})
         \cup (IF o.twice # o.after THEN {"idempotent"} ELSE {})
         \cup (IF o.before2 # o.before THEN {"untouched"} ELSE {})
         \cup (IF o.after2 # o.after THEN {"again"} ELSE {})
+        \* one parsed tree compiled for several environments behaves each time like a fresh parse (recorded differences)
+        \cup (IF "reuse" \in DOMAIN o /\ o.reuse # <<>> THEN {"reuse"} ELSE {})
         \cup (IF IsCore(o.after) /\ ~(LET ls == Leaves(o.after) IN \A i \in 1..(Len(ls) - 1) : ls[i] < ls[i + 1]) THEN {"order"} ELSE {}))
 
 Init == st \in {[c |-> c, l |-> ChunkLo(c, N)] : c \in 1..NChunks}
